@@ -366,6 +366,16 @@ func (p *Pkg) typeOf(en env, e ast.Expr) string {
 				return p.qual(id.Name)
 			}
 		}
+		// conversion to a named type of another package: common.Fixed64(0)
+		if sel, ok := x.Fun.(*ast.SelectorExpr); ok && len(x.Args) == 1 {
+			if id, ok := sel.X.(*ast.Ident); ok {
+				if dir, ok := p.Imports[id.Name]; ok {
+					if _, isNamed := Load(dir).Named[sel.Sel.Name]; isNamed {
+						return dir + ":" + sel.Sel.Name
+					}
+				}
+			}
+		}
 	case *ast.CompositeLit:
 		if x.Type != nil {
 			return p.typeExpr(x.Type)
@@ -440,6 +450,7 @@ type walker struct {
 	read   bool
 	depth  int
 	verArg string // name of the version parameter ("" if none)
+	verVal int64  // Deep mode: the constant passed for the version parameter, -1 if unknown
 }
 
 var serNames = map[string]bool{"Serialize": true, "SerializeUnsigned": true, "SerializeNoAux": true, "SerializeOthers": true, "SerializeUnsignedNormalOrELIP": true, "serializeContent": true}
@@ -614,7 +625,7 @@ func (w *walker) call(c *ast.CallExpr) (toks []Tok, handled bool) {
 		}
 		if Deep {
 			if fd, ok := q.Funcs[name+"."+sel.Sel.Name]; ok {
-				return w.inlineIn(q, name+"."+sel.Sel.Name, fd), true
+				return w.inlineIn(q, name+"."+sel.Sel.Name, fd, c.Args...), true
 			}
 		}
 		// embedded struct of the receiver type defined elsewhere, or a field: call token
@@ -648,12 +659,28 @@ func (w *walker) hasIOArg(c *ast.CallExpr) bool {
 	return false
 }
 
-func (w *walker) inlineIn(q *Pkg, key string, fd *ast.FuncDecl) []Tok {
+func (w *walker) inlineIn(q *Pkg, key string, fd *ast.FuncDecl, args ...ast.Expr) []Tok {
 	if w.depth > 8 {
 		return []Tok{{K: "other", S: "depth"}}
 	}
 	w2 := newWalker(q, q.FileOf[key], fd, w.read)
 	w2.depth = w.depth + 1
+	// a constant (or this method's own folded version) passed for the callee's version parameter
+	if w2.verArg != "" {
+		i := 0
+		for _, prm := range fd.Type.Params.List {
+			for _, n := range prm.Names {
+				if n.Name == w2.verArg && i < len(args) {
+					if v, ok := w.p.ConstInt(w.f.Src(args[i])); ok {
+						w2.verVal = v
+					} else if w.f.Src(args[i]) == w.verArg {
+						w2.verVal = w.verVal
+					}
+				}
+				i++
+			}
+		}
+	}
 	return w2.block(fd.Body.List)
 }
 
@@ -663,6 +690,7 @@ func (w *walker) inlineMethod(fd *ast.FuncDecl) []Tok {
 	}
 	w2 := newWalker(w.p, w.p.FileOf[w.recv+"."+fd.Name.Name], fd, w.read)
 	w2.depth = w.depth + 1
+	w2.verVal = w.verVal
 	return w2.block(fd.Body.List)
 }
 
@@ -676,7 +704,7 @@ func (w *walker) inlineFunc(fd *ast.FuncDecl, c *ast.CallExpr) []Tok {
 }
 
 func newWalker(p *Pkg, f *ex.File, fd *ast.FuncDecl, read bool) *walker {
-	w := &walker{p: p, f: f, en: env{}, read: read}
+	w := &walker{p: p, f: f, en: env{}, read: read, verVal: -1}
 	if fd.Recv != nil && len(fd.Recv.List) > 0 {
 		w.recv = ex.RecvName(fd)
 		if len(fd.Recv.List[0].Names) > 0 {
@@ -817,6 +845,26 @@ func (w *walker) stmt(s ast.Stmt) []Tok {
 			if !ok {
 				res = append(res, Tok{K: "other", S: "if " + w.f.Src(x.Cond)})
 				return append(res, w.block(x.Body.List)...)
+			}
+			if w.verVal >= 0 {
+				taken := false
+				switch g.K {
+				case "ifge":
+					taken = w.verVal >= g.N
+				case "iflt":
+					taken = w.verVal < g.N
+				case "ifeq":
+					taken = w.verVal == g.N
+				case "ifne":
+					taken = w.verVal != g.N
+				}
+				if taken {
+					return append(res, w.block(x.Body.List)...)
+				}
+				if x.Else != nil {
+					return append(res, w.stmt(x.Else)...)
+				}
+				return res
 			}
 			body := w.block(x.Body.List)
 			g.M = int64(len(body))
